@@ -585,3 +585,242 @@ Proof.
     exists body, pad. auto.
   - intros (body & pad & -> & Hl & Hb & Hp). split; [exact Hl | apply wf_tail_body_pad; assumption].
 Qed.
+
+(* ---- the 4 -> 3 conversion ---- *)
+Definition quantum (c0 c1 c2 c3 : N) : N :=
+  ((digit_of_char c0 * 64 + digit_of_char c1) * 64 + digit_of_char c2) * 64 + digit_of_char c3.
+Definition bytes3 (t : N) : list N := [(t / 2 ^ 16) mod 256; (t / 2 ^ 8) mod 256; t mod 256].
+Fixpoint dec_groups (s : list N) : list N :=
+  match s with
+  | c0 :: c1 :: c2 :: c3 :: r => bytes3 (quantum c0 c1 c2 c3) ++ dec_groups r
+  | _ => []
+  end.
+
+(* a character that passed the scan: alphabet or '=' *)
+Definition okc (c : N) : Prop := c < 256 /\ (is_b64char c = true \/ c = 61).
+
+Lemma okc_lookup c : okc c ->
+  digit_of_char c < 64 /\ exists p, strchr_tbl tbl c = Some p /\ N.land (N.of_nat p) 63 = digit_of_char c.
+Proof.
+  intros [Hc [Hv| ->]].
+  - destruct (char_valid c Hc Hv) as (_ & _ & Hd & p & Ep & El). split; [exact Hd|]. exists p. auto.
+  - destruct char_pad as (_ & Ed & p & Ep & El). rewrite Ed. split; [lia|]. exists p. auto.
+Qed.
+
+Lemma quantum_lt c0 c1 c2 c3 : okc c0 -> okc c1 -> okc c2 -> okc c3 -> quantum c0 c1 c2 c3 < 2 ^ 24.
+Proof.
+  intros H0 H1 H2 H3. apply okc_lookup in H0, H1, H2, H3.
+  destruct H0 as [H0 _], H1 as [H1 _], H2 as [H2 _], H3 as [H3 _].
+  unfold quantum. change (2 ^ 24) with 16777216. lia.
+Qed.
+
+Lemma parse_step t d : t * 64 + d < 2 ^ 32 -> u32 (u32 (N.shiftl t 6) + d) = t * 64 + d.
+Proof.
+  intros H. unfold u32. rewrite N.shiftl_mul_pow2. change (2 ^ 6) with 64.
+  change (2 ^ 32) with 4294967296 in *. rewrite (N.mod_small (t * 64)) by lia. apply N.mod_small. lia.
+Qed.
+
+Lemma dec_parse4_ok pre c0 c1 c2 c3 suf :
+  okc c0 -> okc c1 -> okc c2 -> okc c3 ->
+  dec_parse4 tbl (pre ++ c0 :: c1 :: c2 :: c3 :: suf) (length pre) 0 4 0 = Ok (quantum c0 c1 c2 c3).
+Proof.
+  intros H0 H1 H2 H3. apply okc_lookup in H0, H1, H2, H3.
+  destruct H0 as (D0 & p0 & E0 & L0), H1 as (D1 & p1 & E1 & L1),
+           H2 as (D2 & p2 & E2 & L2), H3 as (D3 & p3 & E3 & L3).
+  cbn [dec_parse4]. rewrite !rd_app_r. cbn [rd nth_error bind].
+  rewrite E0, E1, E2, E3, L0, L1, L2, L3. f_equal.
+  unfold quantum. change (2 ^ 32) with 4294967296 in *.
+  rewrite (parse_step 0) by (change (2 ^ 32) with 4294967296; lia).
+  rewrite (parse_step (0 * 64 + _)) by (change (2 ^ 32) with 4294967296; lia).
+  rewrite (parse_step ((0 * 64 + _) * 64 + _)) by (change (2 ^ 32) with 4294967296; lia).
+  rewrite (parse_step (((0 * 64 + _) * 64 + _) * 64 + _)) by (change (2 ^ 32) with 4294967296; lia).
+  lia.
+Qed.
+
+Lemma bytes3_model t : t < 2 ^ 24 ->
+  [N.land (N.shiftr t 16) 255; N.land (N.shiftr (u32 (N.shiftl t 8)) 16) 255;
+   N.land (N.shiftr (u32 (N.shiftl (u32 (N.shiftl t 8)) 8)) 16) 255] = bytes3 t.
+Proof.
+  intros H. unfold bytes3, u32. rewrite !N.shiftr_div_pow2, !N.shiftl_mul_pow2.
+  change 255 with (N.ones 8). rewrite !N.land_ones.
+  change (2 ^ 24) with 16777216 in H. change (2 ^ 32) with 4294967296. change (2 ^ 16) with 65536.
+  change (2 ^ 8) with 256.
+  repeat (apply (f_equal2 (@cons N)); [lia|]). reflexivity.
+Qed.
+
+Lemma dec_out3_ok done r0 r1 r2 rest t :
+  t < 2 ^ 24 ->
+  dec_out3 (done ++ r0 :: r1 :: r2 :: rest) (length done) 0 3 t = Ok (done ++ bytes3 t ++ rest).
+Proof.
+  intros H. rewrite <- (bytes3_model t H).
+  cbn [dec_out3]. rewrite wr_pre. cbn [wr bind]. rewrite wr_pre. cbn [wr bind]. rewrite wr_pre. cbn [wr bind].
+  reflexivity.
+Qed.
+
+Lemma list_ind4 {A} (P : list A -> Prop) :
+  P [] -> (forall l, (0 < length l < 4)%nat -> P l) ->
+  (forall a b c d r, P r -> P (a :: b :: c :: d :: r)) -> forall l, P l.
+Proof.
+  intros H0 H1 H4 l.
+  assert (forall n l, (length l <= n)%nat -> P l) as G.
+  { induction n as [|n IH]; intros l' Hl.
+    - destruct l'; [exact H0 | cbn in Hl; lia].
+    - destruct l' as [|a [|b [|c [|d r]]]]; auto; try (apply H1; cbn [length]; lia).
+      apply H4. apply IH. cbn [length] in Hl. lia. }
+  apply (G (length l)). lia.
+Qed.
+
+Lemma len4_div n : (S (S (S (S n))) / 4 = S (n / 4))%nat.
+Proof. replace (S (S (S (S n)))) with (n + 1 * 4)%nat by lia. rewrite Nat.div_add by lia. lia. Qed.
+Lemma len4_mod n : (S (S (S (S n))) mod 4 = n mod 4)%nat.
+Proof. replace (S (S (S (S n)))) with (n + 1 * 4)%nat by lia. apply Nat.mod_add. lia. Qed.
+
+Lemma dec_groups_length : forall s, length (dec_groups s) = (3 * (length s / 4))%nat.
+Proof.
+  induction s as [|l Hl|a b c d r IH] using list_ind4.
+  - reflexivity.
+  - destruct l as [|a [|b [|c [|d r]]]]; cbn [length] in Hl; try lia; reflexivity.
+  - cbn [dec_groups length]. rewrite app_length, IH, len4_div. cbn [bytes3 length]. lia.
+Qed.
+
+Lemma dec_loop_ok : forall s pre done rest fuel outlen,
+  Forall okc s -> (length s mod 4 = 0)%nat -> length rest = (3 * (length s / 4))%nat ->
+  (length s / 4 <= fuel)%nat -> N.of_nat (length s) < 2 ^ 64 ->
+  outlen + 3 * N.of_nat (length s / 4) < 2 ^ 64 ->
+  dec_loop tbl fuel (pre ++ s) (length pre) (done ++ rest) (length done) (N.of_nat (length s)) outlen =
+  Ok (done ++ dec_groups s, outlen + 3 * N.of_nat (length s / 4)).
+Proof.
+  intros s. induction s as [|l Hl|c0 c1 c2 c3 r IH] using list_ind4;
+    intros pre done rest fuel outlen Hok Hm Hr Hf Hn Ho.
+  - destruct rest; [|discriminate Hr]. destruct fuel; cbn [dec_loop length N.of_nat N.eqb dec_groups];
+      rewrite N.add_0_r; reflexivity.
+  - exfalso. rewrite Nat.mod_small in Hm by lia. lia.
+  - cbn [length] in *. rewrite len4_div in *. rewrite len4_mod in Hm.
+    destruct fuel as [|f]; [lia|].
+    destruct rest as [|r0 [|r1 [|r2 rest']]]; try (cbn [length] in Hr; lia).
+    inversion Hok as [|? ? K0 Hok1]; subst. inversion Hok1 as [|? ? K1 Hok2]; subst.
+    inversion Hok2 as [|? ? K2 Hok3]; subst. inversion Hok3 as [|? ? K3 Hok4]; subst.
+    cbn [dec_loop]. rewrite !Nat2N.inj_succ in *.
+    replace (N.succ (N.succ (N.succ (N.succ (N.of_nat (length r))))) =? 0) with false
+      by (symmetry; apply N.eqb_neq; lia).
+    rewrite dec_parse4_ok by assumption. cbn [bind].
+    rewrite dec_out3_ok by (apply quantum_lt; assumption). cbn [bind].
+    change (2 ^ 64) with 18446744073709551616 in *.
+    replace (u64 (N.succ (N.succ (N.succ (N.succ (N.of_nat (length r))))) + 18446744073709551616 - 4))
+      with (N.of_nat (length r)) by (unfold u64; change (2 ^ 64) with 18446744073709551616; lia).
+    replace (u64 (outlen + 3)) with (outlen + 3) by (unfold u64; change (2 ^ 64) with 18446744073709551616; lia).
+    replace (pre ++ c0 :: c1 :: c2 :: c3 :: r) with ((pre ++ [c0; c1; c2; c3]) ++ r)
+      by (rewrite <- app_assoc; reflexivity).
+    replace (length pre + 4)%nat with (length (pre ++ [c0; c1; c2; c3])) by (rewrite app_length; reflexivity).
+    rewrite (app_assoc done).
+    replace (length done + 3)%nat with (length (done ++ bytes3 (quantum c0 c1 c2 c3)))
+      by (rewrite app_length; reflexivity).
+    rewrite IH; try assumption; try lia.
+    + cbn [dec_groups]. rewrite <- app_assoc. f_equal. f_equal. lia.
+    + cbn [length] in Hr. lia.
+Qed.
+
+Lemma octets24 x0 x1 x2 x3 x4 x5 x6 x7 x8 x9 x10 x11 x12 x13 x14 x15 x16 x17 x18 x19 x20 x21 x22 x23 :
+  [bits_val [x0; x1; x2; x3; x4; x5; x6; x7]; bits_val [x8; x9; x10; x11; x12; x13; x14; x15];
+   bits_val [x16; x17; x18; x19; x20; x21; x22; x23]] =
+  bytes3 (bits_val [x0; x1; x2; x3; x4; x5; x6; x7; x8; x9; x10; x11; x12; x13; x14; x15; x16; x17;
+                    x18; x19; x20; x21; x22; x23]).
+Proof.
+  unfold bytes3.
+  rewrite (bits_val_slice [] [x0; x1; x2; x3; x4; x5; x6; x7]
+             [x8; x9; x10; x11; x12; x13; x14; x15; x16; x17; x18; x19; x20; x21; x22; x23]).
+  rewrite (bits_val_slice [x0; x1; x2; x3; x4; x5; x6; x7] [x8; x9; x10; x11; x12; x13; x14; x15]
+             [x16; x17; x18; x19; x20; x21; x22; x23]).
+  rewrite (bits_val_slice [x0; x1; x2; x3; x4; x5; x6; x7; x8; x9; x10; x11; x12; x13; x14; x15]
+             [x16; x17; x18; x19; x20; x21; x22; x23] []).
+  cbn [app length]. rewrite N.div_1_r. reflexivity.
+Qed.
+
+(* the 24 bits of four digits have the value of the quantum *)
+Lemma quantum_bits d0 d1 d2 d3 :
+  d0 < 64 -> d1 < 64 -> d2 < 64 -> d3 < 64 ->
+  bits_val (digit_bits d0 ++ digit_bits d1 ++ digit_bits d2 ++ digit_bits d3) = ((d0 * 64 + d1) * 64 + d2) * 64 + d3.
+Proof.
+  intros H0 H1 H2 H3. rewrite !bits_val_app, !bits_val_digit by assumption.
+  rewrite !app_length. change (length (digit_bits d1)) with 6%nat. change (length (digit_bits d2)) with 6%nat.
+  change (length (digit_bits d3)) with 6%nat.
+  change (2 ^ N.of_nat (6 + (6 + 6))) with 262144. change (2 ^ N.of_nat (6 + 6)) with 4096.
+  change (2 ^ N.of_nat 6) with 64. lia.
+Qed.
+
+Lemma digit_bits_0 : digit_bits 0 = [false; false; false; false; false; false].
+Proof. reflexivity. Qed.
+
+Lemma scan_valid_step c r : is_b64char c = true -> c <> 61 -> scan_spec (c :: r) 0 = scan_spec r 0.
+Proof.
+  intros Hv Hne. cbn [scan_spec]. destruct (N.eqb_spec c 61); [contradiction|]. rewrite Hv. reflexivity.
+Qed.
+
+Lemma groups_spec : forall s,
+  bytes_ok s -> (length s mod 4 = 0)%nat -> wf_tail s = true ->
+  forall dead, scan_spec s 0 = Some dead ->
+  firstn (length (map bits_val (chunk8 (flat_map char_bits s)))) (dec_groups s) =
+    map bits_val (chunk8 (flat_map char_bits s)) /\
+  N.of_nat (length (map bits_val (chunk8 (flat_map char_bits s)))) + dead = 3 * N.of_nat (length s / 4).
+Proof.
+  intros s. induction s as [|l Hl|c0 c1 c2 c3 r IH] using list_ind4; intros Hb Hm Hw dead Hs.
+  - cbn in Hs. inversion Hs; subst. split; reflexivity.
+  - exfalso. rewrite Nat.mod_small in Hm by lia. lia.
+  - cbn [length] in Hm. rewrite len4_mod in Hm. cbn [length]. rewrite len4_div.
+    inversion Hb as [|? ? B0 Hb1]; subst. inversion Hb1 as [|? ? B1 Hb2]; subst.
+    inversion Hb2 as [|? ? B2 Hb3]; subst. inversion Hb3 as [|? ? B3 Hb4]; subst.
+    unfold is_byte in B0, B1, B2, B3.
+    cbn [wf_tail] in Hw. unfold pad_char in Hw.
+    destruct (N.eqb_spec c0 61) as [->|N0]; [discriminate Hw|].
+    apply andb_true_iff in Hw. destruct Hw as [V0 Hw].
+    destruct (N.eqb_spec c1 61) as [->|N1]; [discriminate Hw|].
+    apply andb_true_iff in Hw. destruct Hw as [V1 Hw].
+    destruct (char_valid c0 B0 V0) as (_ & _ & D0 & _). destruct (char_valid c1 B1 V1) as (_ & _ & D1 & _).
+    rewrite scan_valid_step in Hs by assumption. rewrite scan_valid_step in Hs by assumption.
+    cbn [flat_map]. rewrite (char_bits_valid c0 B0 V0), (char_bits_valid c1 B1 V1).
+    pose proof (quantum_bits (digit_of_char c0) (digit_of_char c1)) as Q.
+    destruct (digit_bits_shape (digit_of_char c0)) as (a5 & a4 & a3 & a2 & a1 & a0 & E0).
+    destruct (digit_bits_shape (digit_of_char c1)) as (b5 & b4 & b3 & b2 & b1 & b0 & E1).
+    destruct (N.eqb_spec c2 61) as [->|N2].
+    + (* "xy==" : one byte *)
+      destruct r as [|? ?]; [|destruct c3; discriminate Hw].
+      apply N.eqb_eq in Hw. subst c3.
+      cbn in Hs. assert (dead = 2) as -> by congruence.
+      specialize (Q 0 0 D0 D1 ltac:(lia) ltac:(lia)). rewrite digit_bits_0 in Q. rewrite E0, E1 in *.
+      rewrite !char_bits_pad. cbn [flat_map app chunk8 map length dec_groups].
+      change (digit_of_char 61) with 0 in *.
+      pose proof (octets24 a5 a4 a3 a2 a1 a0 b5 b4 b3 b2 b1 b0 false false false false false false
+                           false false false false false false) as O.
+      cbn [app] in Q. rewrite Q in O. unfold quantum. change (digit_of_char 61) with 0.
+      rewrite <- O. split; [reflexivity | cbn; lia].
+    + apply andb_true_iff in Hw. destruct Hw as [V2 Hw].
+      destruct (char_valid c2 B2 V2) as (_ & _ & D2 & _).
+      rewrite scan_valid_step in Hs by assumption.
+      rewrite (char_bits_valid c2 B2 V2).
+      destruct (digit_bits_shape (digit_of_char c2)) as (e5 & e4 & e3 & e2 & e1 & e0 & E2).
+      destruct (N.eqb_spec c3 61) as [->|N3].
+      * (* "xyz=" : two bytes *)
+        destruct r as [|d r']; [|destruct r'; [|discriminate Hw]].
+        2:{ cbn [length] in Hm. discriminate Hm. }
+        cbn in Hs. assert (dead = 1) as -> by congruence.
+        specialize (Q (digit_of_char c2) 0 D0 D1 D2 ltac:(lia)). rewrite digit_bits_0 in Q. rewrite E0, E1, E2 in *.
+        rewrite !char_bits_pad. cbn [flat_map app chunk8 map length dec_groups].
+        pose proof (octets24 a5 a4 a3 a2 a1 a0 b5 b4 b3 b2 b1 b0 e5 e4 e3 e2 e1 e0
+                             false false false false false false) as O.
+        cbn [app] in Q. rewrite Q in O. unfold quantum. change (digit_of_char 61) with 0.
+        rewrite <- O. split; [reflexivity | cbn; lia].
+      * (* a full group *)
+        apply andb_true_iff in Hw. destruct Hw as [V3 Hw].
+        destruct (char_valid c3 B3 V3) as (_ & _ & D3 & _).
+        rewrite scan_valid_step in Hs by assumption.
+        rewrite (char_bits_valid c3 B3 V3).
+        destruct (digit_bits_shape (digit_of_char c3)) as (f5 & f4 & f3 & f2 & f1 & f0 & E3).
+        specialize (Q (digit_of_char c2) (digit_of_char c3) D0 D1 D2 D3). rewrite E0, E1, E2, E3 in *.
+        destruct (IH Hb4 Hm Hw dead Hs) as [I1 I2].
+        cbn [app chunk8 map length dec_groups].
+        pose proof (octets24 a5 a4 a3 a2 a1 a0 b5 b4 b3 b2 b1 b0 e5 e4 e3 e2 e1 e0 f5 f4 f3 f2 f1 f0) as O.
+        cbn [app] in Q. rewrite Q in O. fold (quantum c0 c1 c2 c3) in O.
+        split.
+        -- rewrite <- O. cbn [app firstn]. rewrite I1. reflexivity.
+        -- rewrite !Nat2N.inj_succ. lia.
+Qed.
